@@ -631,9 +631,9 @@ def literal_inputs(ctx, size, j):
     # bytes than asked and LiteralUploader has to ask again (read_this_many_bytes); later uploads follow in the same process
     kinds = ("data", "shortread", "filehandle", "chunky", "shortread") + BUFFERED
     kind = kinds[(size + j) % len(kinds)] if j else kinds[size % len(kinds)]
+    sched = gen_sched(r, size)
     if kind == "shortread" and size >= 2:
         sched = [max(1, size // 3), 1] + list(sched)
-    sched = gen_sched(r, size)
     return r, data, secret, kind, sched
 
 
@@ -839,6 +839,12 @@ def replay(ctx, record):
             terms, info = grid_case(ctx, g, c["i"], scratch)
     elif part == "literal":
         with G.Grid(num_servers=10, k=3, n=10, happy=HAPPY, max_segment_size=131072, seed=ctx.seed) as g:
+            # the stream's history matters (state left behind by earlier uploads in the process): replay the
+            # literal uploads from trickling sources that precede this case in the run
+            for size0 in range(2, 56):
+                _r, data0, secret0, kind0, sched0 = literal_inputs(ctx, size0, 0)
+                if kind0 == "shortread" and (size0, 0) != (c["size"], c["j"]):
+                    grid_upload(g, kind0, data0, secret0, sched0, scratch, None, "lit-pre")
             cap = literal_upload_on_servers(ctx, g, c["size"], c["j"], scratch)
         with G.Grid(num_servers=0, k=3, n=10, happy=HAPPY, max_segment_size=131072, seed=ctx.seed) as g0:
             terms, info = literal_case(ctx, g0, cap, c["size"], c["j"])
